@@ -740,6 +740,7 @@ func (b *respBody) Close() error {
 // serve parses one request from the link with net/http's own parser and runs the handler.
 func (t *SimTransport) serve(clientCtx context.Context, in, out *link, side *ServerSide, idx int, ci *callInfo, name, kind string, f *Fault) {
 	st := simrt.NewStream(name)
+	defer simrt.Bind(st)()
 	st.Yield()
 	br := bufio.NewReader(in)
 	r, err := http.ReadRequest(br)
